@@ -46,6 +46,16 @@ CORPUS = [
     ("FromStr", "eu", "none", "plain", "none", "deprecated"),
     ("Add", "em", "none", "plain", "none", "deprecated"),
     ("Sub", "em", "none", "plain", "none", "deprecated"),
+    ("Add", "em", "none", "assoc1", "none", "plain"),
+    ("BitOr", "em", "T", "assoc4", "none", "plain"),
+    ("Mul", "em", "none", "assoc1", "forward", "plain"),
+    ("Not", "em", "none", "assoc1", "none", "plain"),
+    ("TryFrom", "eu", "none", "assoc1", "repr", "plain"),
+    ("FromStr", "eu", "none", "assoc2", "none", "plain"),
+    ("Into", "t1", "none", "plain", "wrapped~ti", "plain"),
+    ("Into", "t1", "none", "plain", "wrapped~ta", "plain"),
+    ("Into", "n2", "'a,T,N", "plain", "wrapped-generic~ti", "plain"),
+    ("Into", "n2", "none", "plain", "field-wrapped~ti", "plain"),
     ("BitAnd", "em", "none", "plain", "none", "deprecated"),
     ("BitOr", "em", "none", "plain", "none", "deprecated"),
     ("BitXor", "em", "none", "plain", "none", "deprecated"),
@@ -105,13 +115,23 @@ def enumerate_cases(tier, rng, chk):
                 for naming in ("plain", "raw"):
                     for fl in C.FLAVOURS:
                         sel.append((d, shape, gname, naming, attr, fl))
+                if "~" not in attr:
+                    for naming in C.ASSOC_NAMINGS:
+                        sel.append((d, shape, gname, naming, attr, "plain"))
     else:
         sel += CORPUS
         seen_dg = set()
         for (d, shape, attr) in combos:
-            for fl, naming in (("plain", "plain"), ("plain", "raw"), ("deprecated", None), ("uninhabited", None)):
+            picks = [("plain", "plain"), ("plain", "raw"), ("deprecated", None), ("uninhabited", None),
+                     ("plain", rng.choice(C.ASSOC_NAMINGS))]
+            if "~" in attr:
+                picks = [("plain", "plain"), ("plain", None)]
+            for fl, naming in picks:
+                if attr.startswith("tyform") and fl == "uninhabited":
+                    continue
+                pool = C.compatible_gsets(attr.partition("~")[0]) or C.GSET_NAMES
                 for _try in range(6):
-                    gname = rng.choice(C.GSET_NAMES)
+                    gname = rng.choice(pool)
                     nm = naming or ("raw" if rng.random() < 0.3 else "plain")
                     k = (d, shape, gname, nm, attr, fl)
                     if k not in sel:
@@ -440,6 +460,10 @@ def classify_error(c, dgs):
         return "TryFrom:generic-enum-repr-generics"
     if c.derive == "FromStr" and c.item.kind == "enum" and generic and "E0107" in codes:
         return "FromStr:generic-enum-missing-generics"
+    if c.derive == "Error" and c.attr.startswith("tyform-src") and "E0599" in codes:
+        return "Error:source-bound-missing:%s" % c.attr.split(":", 1)[1]
+    if c.derive in ("AsRef", "AsMut") and c.attr == "tyform-asref:assoc":
+        return "%s:assoc-type-path-not-generic" % c.derive
     if "E0004" in codes:
         return "%s:non-exhaustive-match:%s:%s" % (c.derive, c.shape, c.attr)
     if "proc-macro derive panicked" in msg:
